@@ -275,6 +275,21 @@ func GenClause(t *rapid.T, tab Table, depth int, o ClauseOpt) Clause {
 }
 
 func genKids(t *rapid.T, tab Table, depth int, o ClauseOpt) []Clause {
+	if nums := colsOfKind(tab, KInt, KFloat); len(nums) >= 3 && rapid.IntRange(0, 7).Draw(t, "colargsiblings") == 0 {
+		// sibling leaves that compare one numeric column with two or three other numeric columns (the plain leaves
+		// of one combinator are evaluated together; int and float columns are converted for the comparison)
+		perm := rapid.Permutation(nums).Draw(t, "siblingcols")
+		n := rapid.IntRange(2, len(perm)-1).Draw(t, "nsiblings")
+		if n > 3 {
+			n = 3
+		}
+		kids := make([]Clause, n)
+		for i := range kids {
+			kids[i] = ColArg(perm[0].Name, rapid.SampledFrom(ordComps).Draw(t, "comp"), perm[1+i].Name)
+			kids[i].Inverse = rapid.IntRange(0, 3).Draw(t, "siblinginv") == 0
+		}
+		return kids
+	}
 	n := rapid.IntRange(1, 4).Draw(t, "kids")
 	kids := make([]Clause, n)
 	for i := range kids {
